@@ -2536,3 +2536,121 @@ func (c *Ctx) bufFlush(rule string, pkgs []*packages.Package, clause string) (n,
 	}
 	return
 }
+
+// ---------------------------------------------------------------------------------------------
+// EDGE-CACHE (C09): AddBipartition re-creates the branch of every node it moves under the new
+// internal node. A branch of tree T remembered in a variable outside the loop that calls
+// T.AddBipartition (a slice of T's tip branches filled beforehand) is therefore dead after the
+// first call that moves its node; using such a variable inside that loop writes to a branch that no
+// longer belongs to the tree.
+func (c *Ctx) edgeCache(rule string, funcs []*FuncInfo) (n, nviol int) {
+	clause := "tip branches carry their mean length"
+	holdsEdges := func(t types.Type) bool {
+		for i := 0; i < 3; i++ {
+			switch u := t.Underlying().(type) {
+			case *types.Slice:
+				t = u.Elem()
+				continue
+			case *types.Map:
+				t = u.Elem()
+				continue
+			case *types.Array:
+				t = u.Elem()
+				continue
+			}
+			break
+		}
+		return strings.HasSuffix(t.String(), "tree.Edge")
+	}
+	for _, fi := range funcs {
+		if fi.Decl.Body == nil {
+			continue
+		}
+		info := fi.Pkg.TypesInfo
+		ast.Inspect(fi.Decl.Body, func(m ast.Node) bool {
+			var body *ast.BlockStmt
+			switch l := m.(type) {
+			case *ast.RangeStmt:
+				body = l.Body
+			case *ast.ForStmt:
+				body = l.Body
+			default:
+				return true
+			}
+			var recv types.Object
+			for _, call := range callsIn(body, false) {
+				if isRepoFunc(calleeOf(info, call), "tree", "Tree", "AddBipartition") {
+					if sel, ok := unparen(call.Fun).(*ast.SelectorExpr); ok {
+						recv = identObj(info, sel.X)
+					}
+				}
+			}
+			if recv == nil {
+				return true
+			}
+			n++
+			key := funcName(fi.Obj) + "/AddBipartition-loop"
+			inner := declaredIn(info, body)
+			// edge-holding variables declared outside the loop, used inside it
+			bad := token.NoPos
+			var badVar types.Object
+			ast.Inspect(body, func(q ast.Node) bool {
+				id, ok := q.(*ast.Ident)
+				if !ok {
+					return true
+				}
+				v, ok := info.Uses[id].(*types.Var)
+				if !ok || v.IsField() || inner[v] || !holdsEdges(v.Type()) || v.Parent() == fi.Pkg.Types.Scope() {
+					return true
+				}
+				// filled from the same tree outside the loop?
+				fromTree := false
+				walkStack(fi.Decl.Body, func(r ast.Node, st []ast.Node) bool {
+					if r == m {
+						return false // not inside the loop itself
+					}
+					as, ok := r.(*ast.AssignStmt)
+					if !ok {
+						return true
+					}
+					hit := false
+					for _, l := range as.Lhs {
+						base := unparen(l)
+						if ie, ok := base.(*ast.IndexExpr); ok {
+							base = unparen(ie.X)
+						}
+						if identObj(info, base) == v {
+							hit = true
+						}
+					}
+					if !hit {
+						return true
+					}
+					for _, rh := range as.Rhs {
+						if mentions(info, rh, recv) {
+							fromTree = true
+						}
+					}
+					for _, a := range st {
+						if rs, ok := a.(*ast.RangeStmt); ok && mentions(info, rs.X, recv) {
+							fromTree = true
+						}
+					}
+					return true
+				})
+				if fromTree && !bad.IsValid() {
+					bad, badVar = id.Pos(), v
+				}
+				return true
+			})
+			if bad.IsValid() {
+				nviol++
+				c.Violation(rule, key, bad, fmt.Sprintf("`%s` holds branches of %s taken before the loop that calls %s.AddBipartition, and is used inside that loop: AddBipartition re-creates the branch of every node it moves, so the remembered branch of a moved tip is no longer part of the tree and what is written to it is lost", badVar.Name(), recv.Name(), recv.Name())).Clause = clause
+			} else {
+				c.OK(rule, key, m.Pos(), "no branch of the tree remembered from before the loop is used inside it")
+			}
+			return false
+		})
+	}
+	return
+}
